@@ -518,6 +518,31 @@ func TestC17(t *testing.T) {
 		kC17Unit.One(ev, c17Unit{A: 2099999999999999, U: -9})
 		kC17Unit.One(ev, c17Unit{A: 1234567, U: -12})
 		exhaustiveC17(ev)
+		// ToUnit alone, in bulk: every unit x thousands of amounts spread over the whole range (a conversion that is
+		// rounded twice is off for about one amount in a few thousand, and only in some units)
+		{
+			var n int64
+			x := uint64(seedEnv)*0x9e3779b97f4a7c15 + uint64(shard)*0xbf58476d1ce4e5b9 + 1
+			per := pick(6000, 400000)
+		bulk:
+			for u := -12; u <= 12; u++ {
+				scale := pow10Rat(-(u + 8))
+				for i := 0; i < per; i++ {
+					x = x*6364136223846793005 + 1442695040888963407
+					v := int64((x >> 11) % uint64(maxSat+1))
+					if i%2 == 1 {
+						v = -v
+					}
+					want, _ := new(big.Rat).Mul(new(big.Rat).SetInt64(v), scale).Float64()
+					n++
+					if bchutil.Amount(v).ToUnit(bchutil.AmountUnit(u)) != want {
+						kC17Unit.One(ev, c17Unit{A: v, U: u})
+						break bulk
+					}
+				}
+			}
+			ev.Bulk("C17:tounit-bulk-every-unit", n, n)
+		}
 		kC17New.Run(t, ev, perShard(pick(60000, 20000000)))
 		kC17Mono.Run(t, ev, perShard(pick(30000, 10000000)))
 		kC17Unit.Run(t, ev, perShard(pick(60000, 20000000)))
